@@ -67,7 +67,7 @@ MATRIX = _matrix()
 
 def streams(ctx):
     return [("matrix", len(MATRIX)), ("random", ctx.scale(200, 5000)), ("argparse_return", ctx.scale(150, 3000)),
-            ("longdoc", ctx.scale(80, 1500)), ("shapes", ctx.scale(150, 3000)), ("big", ctx.scale(30, 500))]
+            ("longdoc", ctx.scale(80, 1500)), ("shapes", ctx.scale(150, 3000)), ("big", ctx.scale(30, 500)), ("similar", ctx.scale(100, 1500))]
 
 
 def _snap_ir(intermediate_repr):
@@ -236,6 +236,8 @@ def gen_case(ctx, stream, idx):
         # nested / single-member / spaced-member types, delimiter characters in str defaults, punctuation in prose
         return irgen.rand_ir(r, type_kinds=CORE_TKINDS + ("nested", "nested", "str", "literaldq"), nparams=r.randint(1, 6),
                              default_kinds=CORE_DKINDS + ("strodd", "strodd"), doc_kinds=("plain", "punct", "punct"))
+    if stream == "similar":
+        return irgen.similar_ir(r, type_kinds=CORE_TKINDS, default_kinds=CORE_DKINDS)
     if stream == "big":
         return irgen.rand_ir(r, type_kinds=CORE_TKINDS, default_kinds=CORE_DKINDS, nparams=r.randint(10, 24), max_params=24,
                              doc_kinds=("plain", "plain", "punct"))
